@@ -139,10 +139,34 @@ type Host struct {
 // NewWorld creates an empty world.
 func NewWorld() *World { return &World{} }
 
+var hostCounter atomic.Int64
+
+// listenLoopback opens a listener on a loopback address of its own. Every 127.x.y.z address has a
+// separate port space, so thousands of short-lived hosts and their TIME_WAIT sockets do not exhaust
+// the ephemeral ports of 127.0.0.1 (httptest would silently fall back to [::1], which regclient
+// references cannot express).
+func listenLoopback() net.Listener {
+	for try := 0; try < 400; try++ {
+		n := hostCounter.Add(1)
+		ip := fmt.Sprintf("127.%d.%d.%d", 1+(n/62500)%100, (n/250)%250, 1+n%250)
+		if l, err := net.Listen("tcp4", ip+":0"); err == nil {
+			return l
+		}
+		if l, err := net.Listen("tcp4", "127.0.0.1:0"); err == nil {
+			return l
+		}
+		time.Sleep(25 * time.Millisecond)
+	}
+	panic("modelreg: cannot open a loopback listener")
+}
+
 // NewHost starts a plain-HTTP model host.
 func (w *World) NewHost(name string) *Host {
 	h := &Host{Name: name, W: w, Repos: map[string]*Repo{}, uploads: map[string]*upload{}}
-	h.Srv = httptest.NewServer(h)
+	h.Srv = httptest.NewUnstartedServer(h)
+	_ = h.Srv.Listener.Close()
+	h.Srv.Listener = listenLoopback()
+	h.Srv.Start()
 	w.mu.Lock()
 	w.Hosts = append(w.Hosts, h)
 	w.mu.Unlock()
